@@ -13,8 +13,8 @@ LEVEL = "model_checking"
 def describe(e):
     if e.get("op") == "EnvNames":
         return "prefix %r: reported %s, rule %s, not honoured %s, wrong field %s" % (e["prefix"], e["reported"], e["model"], e["notHonoured"], e["wrongField"])
-    return "prefix %r, file %s: %s; invalidated %s%s -> err %r (names the field: %s) %s" % (
-        e.get("prefix"), e.get("format") or "none",
+    return "prefix %r, file %s, flag %s: %s; invalidated %s%s -> err %r (names the field: %s) %s" % (
+        e.get("prefix"), e.get("format") or "none", e.get("flagForm"),
         [(".".join(s["path"]), "sources " + "+".join(s["sources"]), "expected " + s["winner"], "loaded from " + s["loadedFrom"], s["loaded"]) for s in e.get("subjects", [])],
         ".".join(e.get("invalid", [])) or "nothing", " (its whole section left unset)" if e.get("unsetSection") else "", e.get("err"), e.get("namesField"), (e.get("msg") or "")[:200])
 
@@ -38,7 +38,7 @@ def run(chk, scratch):
     if not thorough:
         single = [s for s in scen if len(s["subjects"]) == 1]
         pairs = [s for s in scen if len(s["subjects"]) == 2]
-        scen = rnd.sample(single, 900) + rnd.sample(pairs, 600) + rnd.sample([s for s in single if s["unsetSection"]], 60)
+        scen = rnd.sample(single, 900) + rnd.sample(pairs, 600) + rnd.sample([s for s in single if s["unsetSection"]], 60) + rnd.sample([s for s in single if s["flagForm"] != "single"], 240)
     chk.sample({"scenario": {k: scen[0][k] for k in ("prefix", "subjects", "invalid")}})
     inp = os.path.join(scratch, "c15-scen.ndjson")
     vlib.write_ndjson(inp, scen)
